@@ -436,6 +436,12 @@ func (r Wrapper) introspectAccessToken(input string) (*ExtendedTokenIntrospectio
 				return nil, fmt.Errorf("IntrospectAccessToken: InputDescriptorConstraintIdMap contains reserved claim name: %s", reserved)
 			}
 		}
+		// other members of the response that credential-derived values must not override
+		for _, reserved := range []string{"aud", "cnf", "vps", "presentation_definitions", "presentation_submissions"} {
+			if _, isReserved := token.InputDescriptorConstraintIdMap[reserved]; isReserved {
+				return nil, fmt.Errorf("IntrospectAccessToken: InputDescriptorConstraintIdMap contains reserved claim name: %s", reserved)
+			}
+		}
 		response.AdditionalProperties = token.InputDescriptorConstraintIdMap
 	}
 	return &response, nil
